@@ -189,6 +189,15 @@ def run(check, tier, seed):
             broken.append({"theorem": "%s: no #print axioms output" % q})
     for h in forb:
         broken.append({"theorem": "forbidden token " + h})
+    checker = None
+    if build_ok and tier == "thorough":
+        try:
+            ok, out = leanrun.leanchecker(props_modules)
+            checker = "ok" if ok else "FAILED"
+            if not ok:
+                broken.append({"theorem": "leanchecker rejected %s: %s" % (props_modules, out[-500:])})
+        except Exception as e:
+            checker = "not run: %s" % e
     if build_ok and aud["obligations"] == 0:
         broken.append({"theorem": "no theorems found in %s" % props_modules})
 
@@ -336,6 +345,7 @@ def run(check, tier, seed):
             "corpus_cases": n_corpus,
             "oracle_failures_known": {k_: 1 for k_ in known_seen},
             "distribution": counters,
+            "leanchecker": checker,
             "build_ok": build_ok,
             "build_s": round(build_s, 1),
             "broken": broken,
